@@ -277,7 +277,8 @@ class CropMachine:
 
 def run_c04(ctx):
     """sow / grow (any order, grouping, repetition, parallel) / reap == direct"""
-    m = CropMachine(ctx)
+    deep = ctx.params.get("tier") == "thorough"
+    m = CropMachine(ctx, max_n=64 if deep else 40)
     t = ctx.tape
     m.sow()
     sw = m.sc.sweep
@@ -290,7 +291,7 @@ def run_c04(ctx):
     grown = set()
     nops = 0
     regrown = 0
-    while nops < 12:
+    while nops < (20 if deep else 12):
         missing = [i for i in range(1, m.B + 1) if i not in grown]
         # 0 = stop generating
         if not t.flag(5, 6, "more-grows") or (not missing and not t.flag(1, 3, "regrow")):
@@ -433,6 +434,7 @@ def corrupt_bytes(t, good, nbatch):
 
 def run_c08(ctx):
     """reported progress == batches that really finished, over histories"""
+    deep = ctx.params.get("tier") == "thorough"
     m = CropMachine(ctx, max_n=24, max_batches=8)
     t = ctx.tape
     m.sow()
@@ -440,7 +442,7 @@ def run_c08(ctx):
     query_progress(m, model, "after sow")
     nops = 0
     kinds_done = set()
-    while nops < 12 and t.flag(7, 8, "more-ops"):
+    while nops < (18 if deep else 12) and t.flag(7, 8, "more-ops"):
         nops += 1
         op = t.weighted([("grow", 6), ("poison", 2), ("resow", 2), ("delete", 2),
                          ("corrupt", 2), ("check_bad", 1), ("reload", 1), ("unpoison", 1)],
